@@ -186,6 +186,8 @@ pub fn cases(tier: Tier) -> Vec<GCase> {
         let mut c = GCase::new(g, e, class);
         c.bound2 = true;
         c.rewire = true;
+        // many small cases: one candidate per wire position is enough here
+        c.rewire_confirm_cap = 12;
         out.push(c);
     };
     // gate_add / gate_mul / append_evaluated_output
